@@ -15,8 +15,9 @@ over it.  Unknown shapes are refused.
 import ast
 
 from .. import translate
+from . import normalize
 from ..translate import Untranslatable
-from .threshold import _expr, _find_func, _str_const
+from .threshold import _expr, _find_func, _str_const, parse_top
 from .tradeoff import _body, _int, _name, _single_assigns, only_statements
 
 TOF = "fairlearn/postprocessing/_threshold_optimizer.py"
@@ -25,6 +26,14 @@ BUNCH = ["p0", "operation0", "p1", "operation1"]
 
 def U(msg):
     return Untranslatable("threshold-fit lifter: " + msg)
+
+
+# the arithmetic terms this lifter emits for the pinned source (see tradeoff.PINNED_TERMS)
+PINNED_TERMS = ["(p * y)"]
+
+
+def _pin(term):
+    return normalize.lean_prefer(term, PINNED_TERMS)
 
 
 def _self(n, attr=None):
@@ -88,9 +97,14 @@ def _curve_calls(fn, lp, key, grp, simple):
     if len(hull) != 1 or dup:
         raise U(f"{fn.name}: _tradeoff_curve call not found")
     c = la[hull[0]]
-    if [_name(x, "argument") for x in c.args] != [grp, key]:
+    if [_name(x, "argument") for x in c.args[:2]] != [grp, key] or len(c.args) > 5:
         raise U(f"{fn.name}: _tradeoff_curve is not called with (group, sensitive_feature_value)")
     kw = {k.arg: k.value for k in c.keywords}
+    # positional arguments are bound against the signature _tradeoff_curve(data, sensitive_feature_value, flip, x_metric, y_metric)
+    for pname, val in zip(["flip", "x_metric", "y_metric"], c.args[2:]):
+        if pname in kw:
+            raise U(f"{fn.name}: _tradeoff_curve gets {pname} twice")
+        kw[pname] = val
     want = {"flip": "flip"}
     if simple:
         want.update(x_metric="x_metric_", y_metric="y_metric_")
@@ -148,20 +162,16 @@ def _simple(tree):
         raise U("simple: the `overall += ...` accumulation changed")
     overall = _name(aug[0].target, "overall curve")
 
-    def atom_acc(node):
-        if _curve_y(node, key):
-            return "y"
-        if isinstance(node, ast.Name):
-            if node.id in la:
-                return "p"
-            raise U(f"simple: unknown name {node.id} in the accumulation")
-        if isinstance(node, (ast.Subscript, ast.Call, ast.Attribute)):
-            raise U(f"simple: unknown term {ast.unparse(node)[:50]} in the accumulation")
-        return None
-    acc = _expr(aug[0].value, atom_acc)
-    pvars = [n.id for n in ast.walk(aug[0].value) if isinstance(n, ast.Name) and n.id in la]
-    if len(set(pvars)) != 1:
-        raise U("simple: the accumulation does not use exactly one group weight")
+    # <weight> * curve["y"] (either order); the weight is a local of the loop body or the expression itself
+    av = aug[0].value
+    if not (isinstance(av, ast.BinOp) and isinstance(av.op, ast.Mult) and (_curve_y(av.left, key) != _curve_y(av.right, key))):
+        raise U("simple: the accumulated term is not <group weight> * curve['y']")
+    wnode = av.right if _curve_y(av.left, key) else av.left
+    acc = _pin("(y * p)" if _curve_y(av.left, key) else "(p * y)")
+    if isinstance(wnode, ast.Name):
+        if wnode.id not in la:
+            raise U(f"simple: unknown name {wnode.id} in the accumulation")
+        wnode = la[wnode.id]
 
     def atom_freq(node):
         if isinstance(node, ast.Call) and ast.unparse(node) == f"len({grp})":
@@ -173,9 +183,11 @@ def _simple(tree):
         if isinstance(node, ast.Call):
             raise U("simple: call in the group frequency")
         return None
-    freq = _expr(la[pvars[0]], atom_freq)
+    freq = _expr(wnode, atom_freq)
     # overall = C * self._x_grid
     init = a.get(overall)
+    if isinstance(init, ast.BinOp) and isinstance(init.op, ast.Mult) and _self(init.left, "_x_grid"):
+        init = ast.BinOp(left=init.right, op=init.op, right=init.left)      # `grid * c` is `c * grid`
     if not (isinstance(init, ast.BinOp) and isinstance(init.op, ast.Mult) and _self(init.right, "_x_grid")):
         raise U("simple: start value of the overall curve is not <c> * self._x_grid")
     c0 = _int(init.left, "overall start coefficient")
@@ -211,9 +223,22 @@ def _eo(tree):
     # n_positive: sum(labels) (DataFrame: labels.sum().iloc[0]);  n_negative = <expr in n, n_positive>
     pos = [n for n in ast.walk(fn) if isinstance(n, ast.Assign) and isinstance(n.targets[0], ast.Name)
            and n.targets[0].id == "n_positive"]
-    srcs = sorted(ast.unparse(p.value) for p in pos)
-    if srcs not in (["labels.sum().iloc[0]", "sum(labels)"], ["sum(labels)"]):
-        raise U(f"EO: n_positive is computed as {srcs}")
+    # either the plain `n_positive = sum(labels)`, or that in the else branch of `if isinstance(labels, pd.DataFrame):` whose
+    # body is `n_positive = labels.sum().iloc[0]` (as a statement or as a conditional expression)
+    def branches():
+        if len(pos) == 1 and isinstance(pos[0].value, ast.IfExp):
+            e = pos[0].value
+            return ast.unparse(e.test), ast.unparse(e.body), ast.unparse(e.orelse)
+        if len(pos) == 1:
+            return None, None, ast.unparse(pos[0].value)
+        ifs_ = [s_ for s_ in _body(fn) if isinstance(s_, ast.If) and len(s_.body) == 1 and len(s_.orelse) == 1
+                and s_.body[0] in pos and s_.orelse[0] in pos]
+        if len(pos) == 2 and len(ifs_) == 1:
+            return ast.unparse(ifs_[0].test), ast.unparse(ifs_[0].body[0].value), ast.unparse(ifs_[0].orelse[0].value)
+        raise U(f"EO: n_positive is assigned {len(pos)} times in an unknown shape")
+    test_, df_, plain_ = branches()
+    if plain_ != "sum(labels)" or (test_, df_) not in ((None, None), ("isinstance(labels, pd.DataFrame)", "labels.sum().iloc[0]")):
+        raise U(f"EO: n_positive is computed as {[test_, df_, plain_]}")
 
     def atom_neg(node):
         if isinstance(node, ast.Name):
@@ -235,6 +260,12 @@ def _eo(tree):
     if len(ym) != 1:
         raise U("EO: self._y_min is not assigned exactly once")
     c = ym[0].value
+    if not (isinstance(c, ast.Call) and isinstance(c.func, ast.Attribute) and c.func.attr in ("amin", "min") and len(c.args) == 1
+            and isinstance(c.args[0], ast.Name) and c.args[0].id == yv[0].targets[0].value.id
+            and [(k.arg, getattr(k.value, "value", None)) for k in c.keywords] == [("axis", 1)]):
+        # np.amin(a, axis) positionally
+        if isinstance(c, ast.Call) and len(c.args) == 2 and not c.keywords:
+            c = ast.Call(func=c.func, args=c.args[:1], keywords=[ast.keyword(arg="axis", value=c.args[1])])
     if not (isinstance(c, ast.Call) and isinstance(c.func, ast.Attribute) and c.func.attr in ("amin", "min") and len(c.args) == 1
             and isinstance(c.args[0], ast.Name) and c.args[0].id == yv[0].targets[0].value.id
             and [(k.arg, getattr(k.value, "value", None)) for k in c.keywords] == [("axis", 1)]):
@@ -374,7 +405,7 @@ def _r(v):
 
 @translate.lifter
 def lift_thresholdfit(repo):
-    tree = ast.parse(translate._read(repo, TOF))
+    tree = parse_top(repo)
     sm = _simple(tree)
     eo = _eo(tree)
     if eo["grid"] != (sm["lo"], sm["hi"], sm["extra"]):
